@@ -131,5 +131,8 @@ Lemma cmp_c01_whole_example :
 Proof.
   split; [vm_compute; reflexivity|]. split; [vm_compute; tauto|]. split; [vm_compute; reflexivity|].
   split; [vm_compute; repeat constructor|]. split; [vm_compute; reflexivity|].
-  split; [vm_compute; repeat constructor|]. split; [vm_compute; reflexivity|]. split; vm_compute; reflexivity.
+  split.
+  { assert (H : forallb (fun c : Z * list N => N.of_nat (length (snd c)) <? 4294967296) (rf_calls cx_ops) = true) by (vm_compute; reflexivity).
+    rewrite forallb_forall in H. apply Forall_forall. intros c Hc. apply N.ltb_lt. exact (H c Hc). }
+  split; [vm_compute; reflexivity|]. split; vm_compute; reflexivity.
 Qed.
